@@ -145,6 +145,7 @@ def run(chk, repo, tier):
     C01b.run_a13(chk, A13, repo)
     A14 = chk.rule('A14', 'modelled rate / duration symbols Rn, Dn are built from the integer compartment number', floor=2)
     C01b.run_a14(chk, A14, repo)
+    C01b.run_a15_a16(chk, repo)
     from rules.C04 import run_a5
     run_a5(chk, A5, ['abbreviated_record.lark', 'code_record.lark', 'data_record.lark', 'option_record.lark',
                      'simulation_record.lark'])
